@@ -10,6 +10,10 @@ Tie (X, with schedules), checked on every run:
      module globals `set` and `dict` of analysis.py are rebound; impl_analysis.py, no repo edit), compared with
         (a) `run_with schedule` of the Coq model, evaluated inside coqc by vm_compute, and
         (b) the brute-force path specification;
+  2b. statement level: CFGs whose blocks hold generated real statements (compound / nested /
+     starred targets, augmented and annotated assignments, ...) through the real
+     BB.compute_variable_stats + CFG.analyze, against read/write events in Python's evaluation
+     order (spec_stmts.py) solved over paths;
   3. failing-input search (always run): small CFGs x EVERY pop order (state-graph
      exploration of the real `run` loop) against the path specification;
   4. the one documented deviation from the property's literal wording (borrowed variables,
@@ -379,6 +383,7 @@ def run(ctx):
          "hand-written model coq/C09/Analysis.v of BackwardAnalysis.run/LivenessAnalysis, ForwardAnalysis.run/AssignmentAnalysis (include_unreachable=True only) and CFG.analyze, tied to the code by differential execution only (no translator)",
          "props/C09/impl_analysis.py: the injected work-list classes (module globals `set` and `dict` of analysis.py; evidence key schedule_injected says in how many cases the harness really chose the pops), the frame inspection used to memoise explored states, AST statements built to make compute_variable_stats yield given use/def sets",
          "props/C09/spec_paths.py: brute-force path specification (for initial-set variables: 'path to a use or idle walk of n edges', for maybe_ass_before_entry variables: 'assigning path or backward walk of n edges' -- exactly the forms of live_char_initial_nwalk / maybe_char_initial_nwalk)",
+         "props/C09/spec_stmts.py: reading of Python's evaluation order inside a statement (value, then targets left to right; subscript/attribute targets only read)",
          "not modelled: the witness block stored in the liveness dict (C10), ForwardAnalysis with include_unreachable=False (unused in /repo), VariableVisitor"],
         evaluations=len(cases) + len(st_cases) + n_explore_runs, statement_level_cases=len(st_cases), statement_level_cases_with_compound_targets=compound, statement_level_disagreements=st_bad, distinct_nontrivial=len(distinct),
         rule="random: seeded CFGs of 2..6 blocks (sparse/dense/chain, dummy edges, duplicate edges, self loops, unreachable blocks), 3-4 variables, kinds live/ass/analyze, random schedule (rank of the popped block); search: ALL graphs on 2 blocks x all use/def patterns x 7 configurations, a slice of all graphs on 3 blocks, random CFGs of <=5-6 blocks, each under EVERY pop order (state-graph exploration of the real loop); non-trivial = at least one dummy edge or a cycle; distinct = by CFG+sets+configuration (schedule ignored)",
